@@ -510,6 +510,111 @@ fn c03_case(ctx: &Ctx, case: u64, acc: &mut Acc) -> Verdict {
     Ok(())
 }
 
+/// Failures in two waves: most of the cluster crashes first (its Down records stay in every survivor's member
+/// list, remove_down_after being far away), and once that has been reported one more member crashes. The bound
+/// for the second failure counts the members that were alive just before it.
+fn c03_staged(ctx: &Ctx, case: u64, acc: &mut Acc) -> Verdict {
+    let mut r = Rng64::derive(ctx.seed, 0xC03D, case);
+    let nmax = if ctx.tier == Tier::Quick { 14 } else { 22 };
+    let n = r.range(5, nmax) as usize;
+    let p = 3 * R;
+    let cfg = Cfg {
+        p,
+        r: R,
+        k: r.range(1, 3) as usize,
+        tx: r.range(1, 10) as u8,
+        s2d: r.range(2, 4) * p,
+        rda: 86_400_000_000,
+        mps: 1400,
+        notify_down: r.chance(1, 2),
+        pa: None,
+        pad: None,
+        pg: if r.chance(1, 2) { Some((p / 2, 2)) } else { None },
+    };
+    let lat = if r.chance(1, 2) { (1, R * 9 / 10) } else { (1, R / 4) };
+    let Some(mut f) = formed(r.next(), n, &cfg, Renew::None, lat, acc)? else {
+        acc.inconclusive += 1;
+        return Ok(());
+    };
+    let mut nop = |_: &Sim, _: usize, _: &CallRec| -> Result<(), V> { Ok(()) };
+    let t_rand = f.sim.now + r.below(3 * p);
+    f.sim.run_until(t_rand, acc, &mut nop)?;
+    // wave 1
+    let live1 = r.range(2, 4.min(n as u64 - 1)) as usize;
+    let mut order: Vec<usize> = (0..n).collect();
+    r.shuffle(&mut order);
+    let survivors: Vec<usize> = order[..live1].to_vec();
+    let wave1: Vec<usize> = order[live1..].to_vec();
+    let ids: Vec<Id> = f.sim.nodes.iter().map(|x| x.node.id()).collect();
+    let t1 = f.sim.now;
+    for &x in &wave1 {
+        f.sim.nodes[x].crashed = true;
+    }
+    let bound1 = t1 + (2 * n as u64 + 1) * p + cfg.s2d;
+    f.sim.run_until(bound1, acc, &mut nop)?;
+    for &s in &survivors {
+        for &x in &wave1 {
+            ensure!(
+                f.sim.nodes[s].notes.iter().any(|(t, nn)| *t >= t1 && *nn == N::MemberDown(ids[x])),
+                "C03/memberdown-missing",
+                "n={n}: survivor {s} never reported MemberDown({:?}) within (2n+1)P+S2D after {} members crashed at once",
+                ids[x],
+                wave1.len()
+            );
+        }
+    }
+    // wave 2, some time later
+    let t_gap = f.sim.now + r.below(4 * p);
+    f.sim.run_until(t_gap, acc, &mut nop)?;
+    let x = survivors[r.usize(live1)];
+    let t2 = f.sim.now;
+    let listed: Vec<bool> = (0..n).map(|i| i != x && f.sim.lists(i, x)).collect();
+    f.sim.nodes[x].crashed = true;
+    let bound2 = t2 + (2 * live1 as u64 + 1) * p + cfg.s2d;
+    f.sim.run_until(bound2 + 4 * p, acc, &mut nop)?;
+    let mut slack = i64::MAX;
+    for &s in &survivors {
+        if s == x {
+            continue;
+        }
+        ensure!(listed[s], "C03/harness", "survivor {s} did not list {x} before the second failure");
+        let when = f.sim.nodes[s].notes.iter().find(|(t, nn)| *t >= t2 && *nn == N::MemberDown(ids[x])).map(|(t, _)| *t);
+        match when {
+            Some(t) => {
+                ensure!(
+                    t <= bound2,
+                    "C03/memberdown-late",
+                    "n={n}, {} Down records held, {live1} members alive: survivor {s} reported the second failure ({:?}) {} periods after the bound (2n'+1)P+S2D with n'={live1}",
+                    wave1.len(),
+                    ids[x],
+                    (t - bound2) / p + 1
+                );
+                slack = slack.min((bound2 - t) as i64 / p as i64);
+            }
+            None => {
+                return Err(V::new(
+                    "C03/memberdown-missing",
+                    format!("n={n}, {} Down records held, {live1} members alive: survivor {s} never reported the second failure ({:?})", wave1.len(), ids[x]),
+                ))
+            }
+        }
+        for &j in &survivors {
+            if j != x {
+                ensure!(!f.sim.nodes[s].notes.iter().any(|(_, nn)| *nn == N::MemberDown(ids[j])), "C03/survivor-declared-down", "n={n}: survivor {s} declared survivor {:?} Down", ids[j]);
+            }
+        }
+    }
+    if slack != i64::MAX {
+        acc.max("staged_min_slack_periods_inverted_100_minus", (100 - slack.clamp(0, 100)) as u64);
+    }
+    f.sim.tally_into(acc);
+    acc.tally("staged_cases", 1);
+    acc.tally("down_records_held_at_second_failure", wave1.len() as u64);
+    acc.nontrivial(fp(&("staged", n, live1, case)));
+    acc.sample(|| json!({"workload": "staged", "n": n, "first_wave": wave1.len(), "alive_before_second_failure": live1, "slack_periods": slack}));
+    Ok(())
+}
+
 /// A newcomer announces and leaves again right away: before its Feed arrives (it has no active member
 /// yet, but the seed already lists it), just after, or a little later.
 fn c03_leave_early(ctx: &Ctx, case: u64, acc: &mut Acc) -> Verdict {
@@ -1034,6 +1139,7 @@ pub fn c03() -> Check {
         workloads: vec![
             Workload { name: "crash", f: c03_case, quick: 2_400, thorough: 240_000, flav: Flav::Checked },
             Workload { name: "leave_early", f: c03_leave_early, quick: 800, thorough: 80_000, flav: Flav::Checked },
+            Workload { name: "staged", f: c03_staged, quick: 1_600, thorough: 60_000, flav: Flav::Checked },
         ],
         exhaustive: false,
     }
